@@ -155,6 +155,14 @@ def build_index(w):
         loops={0: dict(fingerprint='for (key, item_id) in zip(self.keys(schema), self._ids)', index='i', seq='its', invariant=[
                'KIS(self, CLSOF(self)._key, schema)', 'self._ids == old(self._ids)', 'forall(0, i, lambda k: %s != name)' % (KEYJ % 'k')])},
         hints={'ext_funcs': XT})
+    # schema comparison (what a computed migration is made of): if the old and the new collection share a reference to an object that is being deleted, the referrer must
+    # be re-created too -- ObjectCollection.compare_values answers 0.0 then, whatever else is equal (otherwise the kept referrer points at a dropped object)
+    w.refclass('CCtx', {'deletions': 'Map[Obj,Obj]'}); w.ufunc('OKEYS', ['Coll', 'Sch'], 'Set[Obj]')
+    w.ext_methods['Coll._object_keys'] = dict(params={'schema': 'Sch'}, returns='Set[Obj]', returns_expr='OKEYS(self, schema)')
+    w.contract(OBJS, 'ObjectCollection.compare_values', params={'cls': 'ICls', 'ours': 'Opt[Coll]', 'theirs': 'Opt[Coll]', 'our_schema': 'Sch', 'their_schema': 'Sch', 'context': 'CCtx', 'compcoef': 'float'},
+        returns='float', ghost={'K': 'Obj'},
+        ensures=['implies(not is_none(ours) and not is_none(theirs) and K in OKEYS(some(ours), our_schema) and K in OKEYS(some(theirs), their_schema) and K in context.deletions, result == 0.0)'],
+        abstract={'if ours is not None:': dict(assigns={'our_names': 'Obj'}), 'if theirs is not None:': dict(assigns={'their_names': 'Obj'})})
     CREATE = dict(returns='Coll', modifies=['$alloc', 'Coll._ids', 'Coll._keys'], raises={'ObjectCollectionDuplicateNameError': {}, 'TypeError': {}},
         ensures=['KIS(result, cls._key, schema)', 'not old(allocated(result))', FRAME])
     ABS = lambda ids: {'coll = cast(ObjectIndexBase[Key_T, Object_T], super().create(schema, data, _keys=keys, **kwargs))':
@@ -491,6 +499,26 @@ def extra_obligations(w, tier, seed):
                     if isinstance(n, ast.Call) and isinstance(n.func, ast.Attribute) and n.func.attr in MUT and isinstance(n.func.value, ast.Name): tgt = n.func.value.id
                     if tgt in bound and n.lineno >= bound[tgt]:
                         bad.append('%s:%d (%s): `%s` holds the memoised result of a cached name function (bound at line %d) and is changed in place' % (rel, n.lineno, fn.name, tgt, bound[tgt]))
+    # the owner's cached index keys are refreshed on EVERY application of a rename of an owned object -- also when an already canonical delta is replayed
+    # (RenameReferencedInheritingObject._alter_begin: the refresh_classref call is not under a test of context.canonical)
+    fn_r, _ = repo.find_def('edb/schema/referencing.py', 'RenameReferencedInheritingObject._alter_begin')
+    def guards_of(fn, pred):
+        res = []
+        def walk(body, guards):
+            for st in body:
+                if any(pred(n) for n in ast.walk(st) if not isinstance(n, (ast.FunctionDef,))):
+                    nested = False
+                    for fld in ('body', 'orelse', 'finalbody'):
+                        sub = getattr(st, fld, None)
+                        if isinstance(sub, list) and any(any(pred(n) for n in ast.walk(s2)) for s2 in sub):
+                            nested = True; walk(sub, guards + ([ast.unparse(st.test)] if isinstance(st, (ast.If, ast.While)) else []))
+                    if not nested: res.append(list(guards))
+        walk(fn.body, []); return res
+    gl = guards_of(fn_r, lambda n: isinstance(n, ast.Call) and isinstance(n.func, ast.Attribute) and n.func.attr == 'refresh_classref')
+    ok_r = len(gl) == 1 and not any('canonical' in g for g in gl[0])
+    out.append(dict(id='scan/rename/refresh-classref-unconditional', kind='shape', tag='property', paths=1, status='discharged' if ok_r else ('failed' if gl else 'unknown'), backend='ast-scan', seconds=0.0,
+                    clause='referencing.RenameReferencedInheritingObject._alter_begin refreshes the owner\'s refdict whatever context.canonical is', model=None if ok_r else {'offending_source_location': gl},
+                    where='refresh_classref guarded by %s' % (gl,), function='ast-scan'))
     ok = bool(cached) and calls >= 1 and not bad
     out.append(dict(id='scan/cached-name-lists-not-mutated', kind='ownership', tag='property', paths=1, status='discharged' if ok else ('failed' if bad else 'unknown'), backend='ast-scan', seconds=0.0,
                     clause='edb/: the list returned by a memoised function of edb/schema/name.py (%s) is never changed in place by a caller' % ', '.join(cached),
